@@ -255,6 +255,9 @@ func (ctx Ctx) addSourceFile(node ast.Node, comment *string) {
 }
 
 func (ctx Ctx) typeDecl(doc *ast.CommentGroup, spec *ast.TypeSpec) coq.Decl {
+	if spec.Name.Name == "_" {
+		ctx.unsupported(spec, "type named _")
+	}
 	if spec.TypeParams != nil {
 		ctx.futureWork(spec, "generic named type (e.g. no generic structs)")
 	}
@@ -2352,6 +2355,10 @@ func (ctx Ctx) funcDecl(d *ast.FuncDecl) coq.FuncDecl {
 	addSourceDoc(d.Doc, &fd.Comment)
 	ctx.addSourceFile(d, &fd.Comment)
 
+	if d.Name.Name == "_" {
+		// nothing can refer to it, and _ is not a name a Definition can have
+		ctx.unsupported(d, "function named _")
+	}
 	if d.Recv == nil && d.Name.Name == "init" {
 		// Go runs it before main; nothing calls the emitted definition
 		ctx.unsupported(d, "init function")
@@ -2389,6 +2396,9 @@ func (ctx Ctx) constSpec(spec *ast.ValueSpec) coq.ConstDecl {
 		ctx.unsupported(spec, "multiple names in one const/var spec (split them up)")
 	}
 	ident := spec.Names[0]
+	if ident.Name == "_" {
+		ctx.unsupported(spec, "constant or variable named _")
+	}
 	cd := coq.ConstDecl{
 		Name:     ident.Name,
 		AddTypes: ctx.PkgConfig.TypeCheck,
